@@ -205,6 +205,14 @@ func (c *certStatusChecker) executeInitialStatusAction(ctx context.Context,
 			return fmt.Errorf("recovery: error updating local storage with agglayer certificate: %w", err)
 		}
 	case InitialStatusActionInsertNewCert:
+		if localCert != nil && action.cert != nil && localCert.Height == action.cert.Height {
+			// the agglayer certificate replaces the local (InError) one of the same height: it is a
+			// later attempt, so it continues the retry count (history is keyed by height and retry count)
+			if err := c.replaceLocalCertWithAggLayerCert(ctx, localCert, action.cert); err != nil {
+				return fmt.Errorf("recovery: error replacing local certificate with agglayer certificate: %w", err)
+			}
+			return nil
+		}
 		if _, err := c.updateLocalStorageWithAggLayerCert(ctx, action.cert); err != nil {
 			return fmt.Errorf("recovery: error new local storage with agglayer certificate: %w", err)
 		}
@@ -227,6 +235,19 @@ func (c *certStatusChecker) updateLocalStorageWithAggLayerCert(ctx context.Conte
 
 	c.log.Infof("setting initial certificate from AggLayer: %s", cert.String())
 	return cert, c.storage.SaveLastSentCertificate(ctx, *cert)
+}
+
+// replaceLocalCertWithAggLayerCert stores the certificate from the AggLayer in place of the local
+// certificate of the same height
+func (c *certStatusChecker) replaceLocalCertWithAggLayerCert(ctx context.Context,
+	localCert *types.CertificateHeader, aggLayerCert *agglayertypes.CertificateHeader) error {
+	cert, err := newCertificateInfoFromAgglayerCertHeader(aggLayerCert)
+	if err != nil {
+		return fmt.Errorf("error creating certificate from AggLayer header: %w", err)
+	}
+	cert.Header.RetryCount = localCert.RetryCount + 1
+	c.log.Infof("replacing local certificate %s with the one from AggLayer: %s", localCert.ID(), cert.String())
+	return c.storage.SaveLastSentCertificate(ctx, *cert)
 }
 
 func newCertificateInfoFromAgglayerCertHeader(c *agglayertypes.CertificateHeader) (*types.Certificate, error) {
